@@ -19,6 +19,8 @@ pub enum Initial {
     /// a one-key keyring whose comment contains a Latin-1 byte (not UTF-8): kestrel cannot *load* it,
     /// but generating into it must still only append
     Latin1Comment,
+    /// the -o path is a symbolic link to the real keyring file (a dotfiles layout)
+    Symlink,
     /// an existing keyring larger than any I/O buffer: one key followed by a comment block of this many bytes
     Big { comment_bytes: usize },
 }
@@ -99,6 +101,8 @@ impl Family for B3 {
             4 => Initial::OneKey { trailing_newline: true, comments: true, crlf: false },
             _ => {
                 if rng.chance(1, 5) {
+                    Initial::Symlink
+                } else if rng.chance(1, 5) {
                     Initial::Latin1Comment
                 } else if rng.chance(1, 3) {
                     Initial::Big { comment_bytes: *rng.pick(&[7000usize, 8192, 9000, 20000, 70000]) }
@@ -110,7 +114,16 @@ impl Family for B3 {
         let n = rng.range(1, 5) as usize;
         let mut gens = vec![];
         for k in 0..n {
-            let (name, invalid) = gen_cli_name(rng, k);
+            let (mut name, invalid) = gen_cli_name(rng, k);
+            if k > 0 && !invalid && rng.chance(1, 6) {
+                // same letters as an earlier valid name, other case: a different name
+                if let Some(prev) = gens.iter().rev().find(|g: &&Gen| !g.invalid && g.name.chars().any(|c| c.is_ascii_alphabetic())) {
+                    let flipped: String = prev.name.chars().map(|c| if c.is_ascii_lowercase() { c.to_ascii_uppercase() } else { c.to_ascii_lowercase() }).collect();
+                    if !gens.iter().any(|g| g.name == flipped) {
+                        name = flipped;
+                    }
+                }
+            }
             let fault = if !invalid && rng.chance(1, 8) { Some((rng.below(3) as u32, *rng.pick(&[28i32, 5, 27]), *rng.pick(&[0u32, 1, 10, 100]))) } else { None };
             gens.push(Gen { name, password: gen_cli_password(rng), invalid, fault });
         }
@@ -145,6 +158,12 @@ impl Family for B3 {
                     t = t.replace('\n', "\r\n");
                 }
                 sb.write(f, t.as_bytes());
+                known.push((init_name.into(), init_pw.into()));
+            }
+            Initial::Symlink => {
+                let t = keyring_text(&[KeySpec { name: init_name.into(), sk: init_sk, password: Some(init_pw.into()), salt: r.arr32() }]);
+                sb.write("real-keyring.txt", t.as_bytes());
+                let _ = std::os::unix::fs::symlink("real-keyring.txt", sb.dir.join(f));
                 known.push((init_name.into(), init_pw.into()));
             }
             Initial::Latin1Comment => {
@@ -246,6 +265,9 @@ impl Family for B3 {
                         }
                         if let Some(p) = &e.private {
                             if let Some((salt, _)) = rk::parse_locked(p) {
+                                if salt == [0u8; 32] {
+                                    out.violations.push(viol("C07", "cli_salt_not_random", format!("{}: the locked key's salt is all zero", step)));
+                                }
                                 if salts.contains(&salt.to_vec()) {
                                     out.violations.push(viol("C07", "cli_salt_reused", format!("{}: key generation reused a salt", step)));
                                 }
